@@ -81,6 +81,13 @@ _IN_ORDER_CALL = set()
 def _provenance(ev, fv, args, kwargs):
     """Annotate every RSL returned by an order method with the class of the channel instance that produced it."""
     fi = fv.finfo
+    if fi.name == "__init__" and fi.cls is not None and fi.cls.name == "Kernel" and len(args) >= 2:
+        # Kernel(partons, coeff): keep the pairing of weights and partonic channel for rules that inspect it
+        log = getattr(ev, "kernel_log", None)
+        if log is None:
+            log = ev.kernel_log = []
+        log.append((args[0], args[1]))
+        return NotImplemented
     inst = fv.bound if isinstance(fv.bound, S.ObjVal) else getattr(fv, "via", None)
     if fi.name in ORDER_METHODS and isinstance(inst, S.ObjVal) and inst.cinfo is not None:
         key = (id(inst), fi.name, id(fi))
